@@ -75,7 +75,7 @@ Proof.
   revert dl. induction fuel as [|f IH]; intros dl; cbn [wait_repl_start]; [exact I|].
   apply allcalls_bind; [apply c_now|]. intros t. destruct (t <? dl); [|exact I].
   apply allcalls_bind; [apply ac_replica_status; apply Pread; reflexivity|]. intros [st e]. cbn [fst snd].
-  destruct e; [apply IH|]. destruct st as [rs|]; [|exact I].
+  destruct e; [apply IH|]. destruct st as [rs|]; [|split; [apply Psleep|]; intros _; apply IH].
   destruct (rs_io rs && rs_sql rs); [exact I|]. split; [apply Psleep|]. intros _. apply IH.
 Qed.
 
